@@ -930,3 +930,631 @@ Lemma excluded_downstream_refuted :
   wf w_excl = true /\ consistent_b false w_excl m_excl = true /\ shape_ok false w_excl m_excl = false /\
   masker_of true w_excl 1 = Some (1, true) /\ consistent_b true w_excl m_excl = false.
 Proof. vm_compute. repeat split. Qed.
+
+(* ================================================================ (P3) masks of the repaired sharing satisfy sound_b *)
+(* P3: masks produced by the maskers (consistent_b) satisfy the soundness conditions (sound_b). *)
+
+(* ================================================================ list / mask helpers *)
+Lemma existsb_eqb_In L l : existsb (Nat.eqb L) l = true <-> In L l.
+Proof.
+  rewrite existsb_exists. split.
+  - intros (x & Hx & E). apply Nat.eqb_eq in E. subst. exact Hx.
+  - intro H. exists L. split; [exact H|apply Nat.eqb_refl].
+Qed.
+
+Lemma incl_or_witness (l l' : list nat) : incl l l' \/ exists x, In x l /\ ~ In x l'.
+Proof.
+  induction l as [|a l IH].
+  - left. intros x [].
+  - destruct IH as [IH|(x & Hx & Hn)].
+    + destruct (in_dec Nat.eq_dec a l') as [Ha|Ha].
+      * left. intros x [->|Hx]; auto.
+      * right. exists a. simpl. auto.
+    + right. exists x. simpl. auto.
+Qed.
+
+Lemma NoDup_strict_length (l l' : list nat) x :
+  NoDup l -> incl l l' -> In x l' -> ~ In x l -> length l < length l'.
+Proof.
+  intros Hn Hi Hx Hnx.
+  assert (H : length (x :: l) <= length l').
+  { apply NoDup_incl_length; [constructor; assumption|]. intros y [->|Hy]; auto. }
+  simpl in H. lia.
+Qed.
+
+Lemma iter_add {A} (f : A -> A) a b x : Nat.iter (a + b) f x = Nat.iter a f (Nat.iter b f x).
+Proof. induction a as [|a IH]; simpl; [reflexivity|]. rewrite IH. reflexivity. Qed.
+
+Lemma lbeq_refl x : lbeq x x = true.
+Proof. induction x as [|a x IH]; simpl; [reflexivity|]. rewrite IH, eqb_reflx. reflexivity. Qed.
+
+Lemma expand_nil m : expand m [] = [].
+Proof. reflexivity. Qed.
+
+Lemma expand_app m a b : expand m (a ++ b) = expand m a ++ expand m b.
+Proof. unfold expand. apply flat_map_app. Qed.
+
+Lemma expand_repeat m b e : expand m (repeat b e) = repeat b (e * m).
+Proof.
+  induction e as [|e IH]; [reflexivity|]. simpl repeat. change (b :: repeat b e) with ([b] ++ repeat b e).
+  rewrite expand_app, IH. unfold expand at 1. simpl. rewrite app_nil_r, <- repeat_app. reflexivity.
+Qed.
+
+Lemma expand_1 l : expand 1 l = l.
+Proof.
+  induction l as [|b l IH]; [reflexivity|]. change (b :: l) with ([b] ++ l).
+  rewrite expand_app, IH. reflexivity.
+Qed.
+
+Lemma expand_expand m e l : expand m (expand e l) = expand (e * m) l.
+Proof.
+  induction l as [|b l IH]; [reflexivity|].
+  change (b :: l) with ([b] ++ l). rewrite !expand_app, IH. f_equal.
+  unfold expand at 2 3. simpl. rewrite !app_nil_r. apply expand_repeat.
+Qed.
+
+Lemma length_expand e l : length (expand e l) = e * length l.
+Proof.
+  induction l as [|b l IH]; [simpl; lia|].
+  change (b :: l) with ([b] ++ l). rewrite expand_app, app_length, IH.
+  unfold expand. simpl. rewrite app_nil_r, repeat_length. lia.
+Qed.
+
+Lemma flat_map_all_true {A} (g : A -> list bool) (w : A -> nat) l :
+  (forall s, In s l -> g s = repeat true (w s)) -> flat_map g l = repeat true (list_sum (map w l)).
+Proof.
+  induction l as [|a l IH]; intro H; [reflexivity|]. simpl.
+  rewrite repeat_app, (H a) by (simpl; auto). f_equal. apply IH. intros; apply H; simpl; auto.
+Qed.
+
+Lemma length_flat_map {A} (g : A -> list bool) (w : A -> nat) l :
+  (forall s, In s l -> length (g s) = w s) -> length (flat_map g l) = list_sum (map w l).
+Proof.
+  induction l as [|a l IH]; intro H; [reflexivity|]. simpl.
+  rewrite app_length, (H a) by (simpl; auto). f_equal. apply IH. intros; apply H; simpl; auto.
+Qed.
+
+Lemma mul_cancel_pos e n : n = e * n -> n <> 0 -> e = 1.
+Proof. intros H Hn. destruct e as [|[|e]]; [lia|reflexivity|]. simpl in H. lia. Qed.
+
+(* ================================================================ closure premise *)
+Definition closed_b (nt : net) : bool :=
+  forallb (fun j => match node_at nt j with
+                    | NCat l => negb (frozen true nt (nth j (labels nt) 0))
+                                || forallb (fun s => frozen true nt (nth s (labels nt) 0)) l
+                    | _ => true end) (seq 0 (length nt)).
+
+Section Structure.
+Context (nt : net) (Hwf : wf nt = true).
+
+Let lab j := nth j (labels nt) 0.
+Let F L := frozen true nt L.
+
+(* ---------------------------------------------------------------- A: structure of the partition *)
+Lemma noncut_parent j : j < length nt -> is_cut (node_at nt j) = false ->
+  exists s, s < j /\ lab j = lab s.
+Proof.
+  intros Hj Hc. pose proof (wf_srcs nt j Hwf Hj) as Hs.
+  pose proof (through_same_component nt j Hwf Hj Hc) as T.
+  pose proof (join_same_component nt j) as J.
+  destruct (node_at nt j) as [c|s co k sr|s sr|s t|s m t|a b t|l] eqn:E; simpl in *;
+    try discriminate;
+    try (exists s; split; [apply Hs; auto | apply T; intros; discriminate]).
+  exists a. split; [apply Hs; auto|]. apply (J a b t Hwf Hj eq_refl).
+Qed.
+
+Lemma root_exists : forall j, j < length nt ->
+  exists r, r <= j /\ lab r = lab j /\ is_cut (node_at nt r) = true.
+Proof.
+  intro j. induction j as [j IH] using lt_wf_ind. intro Hj.
+  destruct (is_cut (node_at nt j)) eqn:Hc.
+  - exists j. auto.
+  - destruct (noncut_parent j Hj Hc) as (s & Hs & El).
+    destruct (IH s Hs ltac:(lia)) as (r & Hr & Er & Cr).
+    exists r. split; [lia|]. split; [congruence|exact Cr].
+Qed.
+
+Lemma In_members j L : In j (members nt L) <-> j < length nt /\ lab j = L.
+Proof.
+  unfold members. cbv zeta. rewrite filter_In, in_seq, Nat.eqb_eq. unfold lab. split; intros [H1 H2]; split; auto; lia.
+Qed.
+
+Lemma any_member_intro L p j : j < length nt -> lab j = L -> p j (node_at nt j) = true ->
+  any_member nt L p = true.
+Proof.
+  intros Hj El Hp. unfold any_member. apply existsb_exists. exists j. split; [|exact Hp].
+  apply In_members. auto.
+Qed.
+
+Lemma any_member_elim L p : any_member nt L p = true ->
+  exists j, j < length nt /\ lab j = L /\ p j (node_at nt j) = true.
+Proof.
+  unfold any_member. rewrite existsb_exists. intros (j & Hin & Hp). apply In_members in Hin.
+  exists j. tauto.
+Qed.
+
+Lemma lab_In j : j < length nt -> In (lab j) (labels nt).
+Proof. intro Hj. apply nth_In. rewrite labels_length. exact Hj. Qed.
+
+(* ---------------------------------------------------------------- B: frozen classes *)
+Let F0 := filter (frozen_basic true nt) (dedup (labels nt)).
+Let Sk k := Nat.iter k (pin_round nt) F0.
+
+Lemma frozen_iff L : F L = true <-> In L (Sk (length nt)).
+Proof.
+  unfold F, frozen, pinned. cbv zeta. rewrite existsb_eqb_In. unfold dedup at 1.
+  rewrite nodup_In. reflexivity.
+Qed.
+
+Lemma In_pin_round x S : In x (pin_round nt S) <->
+  In x S \/ exists j l s, j < length nt /\ node_at nt j = NCat l /\ In (lab j) S /\ In s l /\ x = lab s.
+Proof.
+  unfold pin_round. cbv zeta. unfold dedup. rewrite nodup_In, in_app_iff, in_flat_map. split.
+  - intros [H|(j & Hj & Hin)]; [left; exact H|]. right. apply in_seq in Hj.
+    destruct (node_at nt j) as [c|s co k sr|s sr|s t|s m t|a b t|l] eqn:E; try contradiction.
+    destruct (existsb (Nat.eqb (nth j (labels nt) 0)) S) eqn:Ex; [|contradiction].
+    apply existsb_eqb_In in Ex. apply in_map_iff in Hin as (s & Es & Hs).
+    exists j, l, s. repeat split; auto; lia.
+  - intros [H|(j & l & s & Hj & E & Hl & Hs & Ex)]; [left; exact H|]. right.
+    exists j. split; [apply in_seq; lia|]. rewrite E.
+    apply existsb_eqb_In in Hl. unfold lab in Hl. rewrite Hl. apply in_map_iff. exists s. auto.
+Qed.
+
+Lemma Sk_mono k x : In x (Sk k) -> In x (Sk (S k)).
+Proof. intro H. unfold Sk. simpl. apply In_pin_round. left. exact H. Qed.
+
+Lemma F0_in L : frozen_basic true nt L = true -> In L (labels nt) -> In L F0.
+Proof. intros H1 H2. unfold F0. apply filter_In. split; [|exact H1]. apply nodup_In. exact H2. Qed.
+
+Lemma Sk_F0 k x : In x F0 -> In x (Sk k).
+Proof. intro H. induction k as [|k IH]; [exact H|]. apply Sk_mono. exact IH. Qed.
+
+Lemma frozen_of_basic L : frozen_basic true nt L = true -> In L (labels nt) -> F L = true.
+Proof. intros H1 H2. apply frozen_iff. apply Sk_F0. apply F0_in; assumption. Qed.
+
+Definition closedS (S : list nat) : Prop :=
+  forall j l s, j < length nt -> node_at nt j = NCat l -> In (lab j) S -> In s l -> In (lab s) S.
+
+Lemma closed_round S : closedS S -> forall x, In x (pin_round nt S) <-> In x S.
+Proof.
+  intros C x. rewrite In_pin_round. split; [|auto].
+  intros [H|(j & l & s & Hj & E & Hl & Hs & Ex)]; [exact H|]. subst x. exact (C j l s Hj E Hl Hs).
+Qed.
+
+Lemma closed_next S : closedS S -> closedS (pin_round nt S).
+Proof.
+  intros C j l s Hj E Hl Hs. apply (closed_round S C). apply (closed_round S C) in Hl.
+  exact (C j l s Hj E Hl Hs).
+Qed.
+
+Lemma closed_iter S k : closedS S -> closedS (Nat.iter k (pin_round nt) S).
+Proof. intro C. induction k as [|k IH]; [exact C|]. simpl. apply closed_next. exact IH. Qed.
+
+Lemma stable_closed S : incl (pin_round nt S) S -> closedS S.
+Proof.
+  intros Hi j l s Hj E Hl Hs. apply Hi. apply In_pin_round. right. exists j, l, s. auto.
+Qed.
+
+Lemma Sk_labels k x : In x (Sk k) -> In x (labels nt).
+Proof.
+  revert x. induction k as [|k IH]; intros x H.
+  - unfold Sk, F0 in H. simpl in H. apply filter_In in H as [H _]. apply nodup_In in H. exact H.
+  - unfold Sk in H. simpl in H. apply In_pin_round in H as [H|(j & l & s & Hj & E & Hl & Hs & Ex)].
+    + apply IH. exact H.
+    + subst x. apply lab_In. pose proof (wf_srcs nt j Hwf Hj s) as Hlt. rewrite E in Hlt.
+      specialize (Hlt Hs). lia.
+Qed.
+
+Lemma Sk_NoDup k : NoDup (Sk k).
+Proof.
+  destruct k as [|k].
+  - unfold Sk, F0. simpl. apply NoDup_filter. apply NoDup_nodup.
+  - unfold Sk. simpl. unfold pin_round. cbv zeta. apply NoDup_nodup.
+Qed.
+
+Lemma Sk_length k : length (Sk k) <= length nt.
+Proof.
+  rewrite <- labels_length. apply NoDup_incl_length; [apply Sk_NoDup|].
+  intros x Hx. exact (Sk_labels k x Hx).
+Qed.
+
+Lemma Sk_progress k : closedS (Sk k) \/ k + 1 <= length (Sk k).
+Proof.
+  induction k as [|k IH].
+  - destruct (Sk 0) as [|a r] eqn:E.
+    + left. intros j l s _ _ [].
+    + right. simpl. lia.
+  - destruct IH as [C|Hlen].
+    + left. unfold Sk. simpl. apply closed_next. exact C.
+    + destruct (incl_or_witness (Sk (S k)) (Sk k)) as [Hi|(x & Hx & Hn)].
+      * left. unfold Sk. simpl. apply closed_next. apply stable_closed. exact Hi.
+      * right. assert (length (Sk k) < length (Sk (S k))).
+        { apply (NoDup_strict_length _ _ x); auto using Sk_NoDup. intros y Hy. apply Sk_mono. exact Hy. }
+        lia.
+Qed.
+
+Lemma Sk_closed : closedS (Sk (length nt)).
+Proof.
+  assert (E : exists k, k <= length nt /\ closedS (Sk k)).
+  { destruct (Sk_progress (length nt)) as [C|Hlen].
+    - exists (length nt). auto.
+    - pose proof (Sk_length (length nt)). lia. }
+  destruct E as (k & Hk & C).
+  replace (length nt) with ((length nt - k) + k) by lia.
+  unfold Sk. rewrite iter_add. apply closed_iter. exact C.
+Qed.
+
+Lemma closed_frozen j l s : j < length nt -> node_at nt j = NCat l -> F (lab j) = true -> In s l ->
+  F (lab s) = true.
+Proof.
+  intros Hj E Hf Hs. apply frozen_iff. apply frozen_iff in Hf. exact (Sk_closed j l s Hj E Hf Hs).
+Qed.
+
+End Structure.
+
+Theorem closed_b_holds : forall nt, wf nt = true -> closed_b nt = true.
+Proof.
+  intros nt Hwf. unfold closed_b. apply forallb_forall. intros j Hj. apply in_seq in Hj.
+  destruct (node_at nt j) as [c|s co k sr|s sr|s t|s m t|a b t|l] eqn:E; auto.
+  destruct (frozen true nt (nth j (labels nt) 0)) eqn:Hf; [|reflexivity]. simpl.
+  apply forallb_forall. intros s Hs. exact (closed_frozen nt Hwf j l s ltac:(lia) E Hf Hs).
+Qed.
+
+(* ================================================================ global per-node equations *)
+Section Unfold.
+Context (nt : net) (ms : nat -> list bool) (Hwf : wf nt = true).
+
+Let W j := nth j (widths nt) 0.
+Let al j := nth j (alive nt ms) [].
+
+Lemma alive_at j : j < length nt ->
+  al j = match node_at nt j with
+         | NIn c => repeat true c
+         | NLayer s co k sr =>
+             match k, sr with
+             | Full, true => ms j
+             | Full, false => repeat true co
+             | Dw, true => map2 andb (al s) (ms j)
+             | Dw, false => al s
+             end
+         | NBn s _ => al s
+         | NProp s _ => al s
+         | NFlat s m _ => expand m (al s)
+         | NJoin a b _ => map2 orb (al a) (al b)
+         | NCat l => flat_map al l
+         end.
+Proof.
+  intro Hj. pose proof (wf_srcs nt j Hwf Hj) as Hs.
+  unfold al. rewrite alive_nth by exact Hj. unfold alive_step, alive.
+  rewrite ?firstn_build_length by lia. fold (alive nt ms).
+  destruct (node_at nt j) as [c|s co k sr|s sr|s t|s m t|a b t|l] eqn:E; simpl in Hs;
+    try (destruct k, sr); try (rewrite ?nth_firstn_lt by (apply Hs; auto); reflexivity).
+  apply flat_map_ext_in'. intros x Hx. rewrite nth_firstn_lt by (apply Hs; exact Hx). reflexivity.
+Qed.
+
+Lemma W_at j : j < length nt ->
+  W j = match node_at nt j with
+        | NIn c => c
+        | NLayer _ co _ _ => co
+        | NBn s _ => W s
+        | NProp s _ => W s
+        | NFlat s m _ => W s * m
+        | NJoin a _ _ => W a
+        | NCat l => list_sum (map W l)
+        end.
+Proof.
+  intro Hj. pose proof (wf_srcs nt j Hwf Hj) as Hs.
+  unfold W. rewrite widths_nth by exact Hj. unfold width_step.
+  destruct (node_at nt j) as [c|s co k sr|s sr|s t|s m t|a b t|l] eqn:E; simpl in Hs;
+    try (rewrite ?nth_firstn_lt by (apply Hs; auto); reflexivity).
+  f_equal. apply map_ext_in. intros x Hx. rewrite nth_firstn_lt by (apply Hs; exact Hx). reflexivity.
+Qed.
+
+Lemma wf_join j a b t : j < length nt -> node_at nt j = NJoin a b t -> W a = W b.
+Proof.
+  intros Hj E. pose proof (wf_node nt j Hwf Hj) as Wn.
+  pose proof (wf_srcs nt j Hwf Hj) as Hs. rewrite E in Wn, Hs. unfold wf_step in Wn.
+  apply andb_true_iff in Wn as [_ Wn]. apply Nat.eqb_eq in Wn. simpl in Hs.
+  rewrite !nth_firstn_lt in Wn by (apply Hs; auto). exact Wn.
+Qed.
+
+End Unfold.
+
+(* ================================================================ C: the main invariant *)
+Lemma singleton_of_short (fl : list nat) j : In j fl -> length fl <= 1 -> fl = [j].
+Proof.
+  destruct fl as [|x [|y r]]; simpl; intros H Hl; [contradiction| |lia].
+  destruct H as [->|[]]. reflexivity.
+Qed.
+
+Section Main.
+Context (nt : net) (ms : nat -> list bool).
+Context (Hwf : wf nt = true) (Hcons : consistent_b true nt ms = true) (Hclosed : closed_b nt = true).
+
+Local Notation lab j := (nth j (labels nt) 0) (only parsing).
+Local Notation W j := (nth j (widths nt) 0) (only parsing).
+Local Notation al j := (nth j (alive nt ms) []) (only parsing).
+Local Notation F L := (frozen true nt L) (only parsing).
+Local Notation searchf := (fun j => is_search_layer (node_at nt j)) (only parsing).
+Local Notation catf := (fun j => is_cat (node_at nt j)) (only parsing).
+
+Lemma closedP j l s : j < length nt -> node_at nt j = NCat l -> F (lab j) = true -> In s l ->
+  F (lab s) = true.
+Proof.
+  intros Hj E Hf Hs. unfold closed_b in Hclosed. rewrite forallb_forall in Hclosed.
+  specialize (Hclosed j ltac:(apply in_seq; lia)). rewrite E, Hf in Hclosed. simpl in Hclosed.
+  rewrite forallb_forall in Hclosed. exact (Hclosed s Hs).
+Qed.
+
+Lemma consistent_at i : i < length nt -> is_search_layer (node_at nt i) = true ->
+  length (ms i) = W i /\
+  ((F (lab i) || negb (has_masker nt (lab i))) = true -> ms i = repeat true (length (ms i))) /\
+  ms i = ms (hd i (filter searchf (members nt (lab i)))).
+Proof.
+  intros Hi Hs. pose proof Hcons as H. unfold consistent_b in H. cbv zeta in H.
+  rewrite forallb_forall in H.
+  specialize (H i ltac:(apply filter_In; split; [apply in_seq; lia|exact Hs])).
+  unfold masker_of in H. cbv zeta in H. rewrite orb_true_r in H.
+  apply andb_true_iff in H as [H12 H3]. apply andb_true_iff in H12 as [H1 H2].
+  apply Nat.eqb_eq in H1. apply lbeq_eq in H3. split; [exact H1|]. split; [|exact H3].
+  intro Hfr. rewrite Hfr in H2. simpl in H2. apply lbeq_eq in H2. exact H2.
+Qed.
+
+Definition Vof (L : nat) : list bool :=
+  match filter searchf (members nt L) with
+  | c :: _ => ms c
+  | [] => match filter catf (members nt L) with r :: _ => al r | [] => [] end
+  end.
+
+Definition Inv (j : nat) : Prop :=
+  (F (lab j) = true -> al j = repeat true (W j)) /\
+  (F (lab j) = false -> exists e, al j = expand e (Vof (lab j)) /\ W j = e * length (Vof (lab j))).
+
+Lemma Inv_frozen j : F (lab j) = true -> al j = repeat true (W j) -> Inv j.
+Proof. intros Hf Ha. split; [intros _; exact Ha|intro H; congruence]. Qed.
+
+Lemma Inv_free j e : F (lab j) = false -> al j = expand e (Vof (lab j)) ->
+  W j = e * length (Vof (lab j)) -> Inv j.
+Proof. intros Hf Ha Hw. split; [intro H; congruence|]. intros _. exists e. auto. Qed.
+
+Lemma Inv_len j : Inv j -> length (al j) = W j.
+Proof.
+  intros [I1 I2]. destruct (F (lab j)) eqn:Hf.
+  - rewrite I1 by reflexivity. apply repeat_length.
+  - destruct (I2 eq_refl) as (e & Ha & Hw). rewrite Ha, length_expand. lia.
+Qed.
+
+Lemma Inv_transfer j s : lab j = lab s -> al j = al s -> W j = W s -> Inv s -> Inv j.
+Proof. intros El Ea Ew. unfold Inv. rewrite El, Ea, Ew. auto. Qed.
+
+(* ---------------------------------------------------------------- classes that are frozen *)
+Lemma in_frozen j c : j < length nt -> node_at nt j = NIn c -> F (lab j) = true.
+Proof.
+  intros Hj E. apply frozen_of_basic; [|apply lab_In; exact Hj]. unfold frozen_basic.
+  rewrite (any_member_intro nt (lab j) _ j Hj eq_refl); [reflexivity|]. rewrite E. reflexivity.
+Qed.
+
+Lemma fixed_or_feeds_frozen j : j < length nt ->
+  is_fixed_module (node_at nt j) || feeds_fixed_full nt j = true -> F (lab j) = true.
+Proof.
+  intros Hj E. apply frozen_of_basic; [|apply lab_In; exact Hj]. unfold frozen_basic.
+  apply orb_true_iff. right. simpl. apply orb_true_iff. left.
+  apply (any_member_intro nt (lab j) _ j Hj eq_refl). exact E.
+Qed.
+
+Lemma fixed_frozen j : j < length nt -> is_fixed_module (node_at nt j) = true -> F (lab j) = true.
+Proof. intros Hj E. apply fixed_or_feeds_frozen; [exact Hj|]. rewrite E. reflexivity. Qed.
+
+Lemma feeds_frozen j s co : j < length nt -> s < length nt ->
+  node_at nt j = NLayer s co Full false -> F (lab s) = true.
+Proof.
+  intros Hj Hs E. apply fixed_or_feeds_frozen; [exact Hs|]. apply orb_true_iff. right.
+  unfold feeds_fixed_full. apply existsb_exists. exists (node_at nt j). split.
+  - unfold node_at. apply nth_In. exact Hj.
+  - rewrite E. apply Nat.eqb_refl.
+Qed.
+
+Lemma cat_search_frozen j i : j < length nt -> i < length nt -> lab i = lab j ->
+  is_cat (node_at nt j) = true -> is_search_layer (node_at nt i) = true -> F (lab j) = true.
+Proof.
+  intros Hj Hi El Hc Hs. apply frozen_of_basic; [|apply lab_In; exact Hj]. unfold frozen_basic.
+  apply orb_true_iff. right. simpl. apply orb_true_iff. right.
+  rewrite (any_member_intro nt (lab j) (fun _ nd => is_cat nd) j Hj eq_refl Hc).
+  rewrite (any_member_intro nt (lab j) (fun _ nd => is_search_layer nd) i Hi El Hs). reflexivity.
+Qed.
+
+Lemma two_cat_frozen j : j < length nt -> is_cat (node_at nt j) = true ->
+  1 < length (filter catf (members nt (lab j))) -> F (lab j) = true.
+Proof.
+  intros Hj Hc Hl. apply frozen_of_basic; [|apply lab_In; exact Hj]. unfold frozen_basic.
+  apply orb_true_iff. right. simpl. apply orb_true_iff. right.
+  rewrite (any_member_intro nt (lab j) (fun _ nd => is_cat nd) j Hj eq_refl Hc). simpl.
+  apply orb_true_iff. right. apply Nat.ltb_lt. exact Hl.
+Qed.
+
+Lemma search_head i : i < length nt -> is_search_layer (node_at nt i) = true ->
+  exists c r, filter searchf (members nt (lab i)) = c :: r.
+Proof.
+  intros Hi Hs.
+  assert (Hin : In i (filter searchf (members nt (lab i)))).
+  { apply filter_In. split; [|exact Hs]. apply In_members. auto. }
+  destruct (filter searchf (members nt (lab i))) as [|c r]; [contradiction|]. eauto.
+Qed.
+
+Lemma masker_exists j s co : j < length nt -> node_at nt j = NLayer s co Dw true ->
+  F (lab j) = false -> has_masker nt (lab j) = true.
+Proof.
+  intros Hj E Hf. destruct (has_masker nt (lab j)) eqn:Hm; [reflexivity|exfalso].
+  destruct (root_exists nt Hwf j Hj) as (r & Hr & El & Cr).
+  assert (Hrl : r < length nt) by lia.
+  destruct (is_defining (node_at nt r)) eqn:Hd.
+  - unfold has_masker in Hm.
+    rewrite (any_member_intro nt (lab j) (fun _ nd => is_defining nd) r Hrl El Hd) in Hm. discriminate.
+  - assert (Hc : is_cat (node_at nt r) = true).
+    { destruct (node_at nt r) as [c|s' co' k sr|s' sr|s' t|s' m t|a b t|l]; simpl in *; try discriminate; try reflexivity.
+      destruct k; discriminate. }
+    assert (Hs : is_search_layer (node_at nt j) = true) by (rewrite E; reflexivity).
+    pose proof (cat_search_frozen r j Hrl Hj (eq_sym El) Hc Hs) as Hfr. rewrite El in Hfr. congruence.
+Qed.
+
+Definition SndOK (j : nat) : Prop :=
+  match node_at nt j with
+  | NLayer s _ Dw true => lbeq (ms j) (al s)
+  | NLayer s _ _ false => lbeq (al s) (repeat true (W s))
+  | NBn s false => lbeq (al s) (repeat true (W s))
+  | NJoin a b _ => lbeq (al a) (al b)
+  | _ => true
+  end = true.
+
+Lemma main_inv : forall j, j < length nt -> Inv j /\ SndOK j.
+Proof.
+  intro j. induction j as [j IH] using lt_wf_ind. intro Hj.
+  pose proof (wf_srcs nt j Hwf Hj) as Hs.
+  pose proof (alive_at nt ms Hwf j Hj) as Ha. pose proof (W_at nt Hwf j Hj) as Hw.
+  pose proof (through_same_component nt j Hwf Hj) as Hthru.
+  assert (IHi : forall s, s < j -> Inv s) by (intros s Hsj; apply IH; lia).
+  unfold SndOK.
+  destruct (node_at nt j) as [c|s co k sr|s sr|s t|s m t|a b t|l] eqn:E; simpl in Hs.
+  - (* NIn *)
+    split; [|reflexivity]. apply Inv_frozen; [exact (in_frozen j c Hj E)|]. rewrite Ha, Hw. reflexivity.
+  - (* NLayer *)
+    assert (Hsj : s < j) by (apply Hs; auto).
+    destruct k, sr.
+    + (* Full, searchable *)
+      split; [|reflexivity].
+      assert (Hsl : is_search_layer (node_at nt j) = true) by (rewrite E; reflexivity).
+      destruct (consistent_at j Hj Hsl) as (Hl & Hfr & Hc).
+      destruct (F (lab j)) eqn:Hf.
+      * apply Inv_frozen; [exact Hf|]. rewrite Ha, <- Hl. apply Hfr. reflexivity.
+      * destruct (search_head j Hj Hsl) as (c & r & Efl). rewrite Efl in Hc. simpl in Hc.
+        assert (EV : Vof (lab j) = ms j) by (unfold Vof; rewrite Efl; symmetry; exact Hc).
+        apply (Inv_free j 1); [exact Hf| |]; rewrite EV.
+        -- rewrite expand_1. exact Ha.
+        -- lia.
+    + (* Full, fixed *)
+      assert (Hfm : is_fixed_module (node_at nt j) = true) by (rewrite E; reflexivity).
+      split.
+      * apply Inv_frozen; [exact (fixed_frozen j Hj Hfm)|]. rewrite Ha, Hw. reflexivity.
+      * pose proof (feeds_frozen j s co Hj ltac:(lia) E) as Hfs.
+        destruct (IHi s Hsj) as [I1 _]. rewrite (I1 Hfs). apply lbeq_refl.
+    + (* Dw, searchable *)
+      assert (Hsl : is_search_layer (node_at nt j) = true) by (rewrite E; reflexivity).
+      assert (El : lab j = lab s) by (apply Hthru; [reflexivity|intros; discriminate]).
+      pose proof (wf_dw nt j s co true Hwf Hj E) as Hco.
+      destruct (consistent_at j Hj Hsl) as (Hl & Hfr & Hc).
+      destruct (IHi s Hsj) as [I1 I2]. rewrite <- El in I1, I2.
+      destruct (F (lab j)) eqn:Hf.
+      * assert (Hm : ms j = al s).
+        { rewrite (I1 eq_refl). rewrite (Hfr eq_refl), Hl, Hw, Hco. reflexivity. }
+        split.
+        -- apply Inv_frozen; [exact Hf|]. rewrite Ha, Hm, map2_andb_diag, (I1 eq_refl), Hw, Hco.
+           reflexivity.
+        -- rewrite Hm. apply lbeq_refl.
+      * pose proof (masker_exists j s co Hj E Hf) as Hmk.
+        destruct (search_head j Hj Hsl) as (c & r & Efl). rewrite Efl in Hc. simpl in Hc.
+        assert (EV : Vof (lab j) = ms j) by (unfold Vof; rewrite Efl; symmetry; exact Hc).
+        destruct (I2 eq_refl) as (e & Hae & Hwe). rewrite EV in Hae, Hwe.
+        assert (Hm : ms j = al s).
+        { destruct (ms j) as [|b0 V0] eqn:EM.
+          - rewrite Hae. reflexivity.
+          - assert (e = 1).
+            { apply (mul_cancel_pos e (length (b0 :: V0))); [|simpl; lia].
+              rewrite <- Hwe, <- Hco, <- Hw. exact Hl. }
+            subst e. rewrite Hae, expand_1. reflexivity. }
+        split.
+        -- apply (Inv_free j 1); [exact Hf| |]; rewrite EV.
+           ++ rewrite expand_1, Ha, <- Hm, map2_andb_diag. reflexivity.
+           ++ lia.
+        -- rewrite Hm. apply lbeq_refl.
+    + (* Dw, fixed *)
+      assert (Hfm : is_fixed_module (node_at nt j) = true) by (rewrite E; reflexivity).
+      assert (El : lab j = lab s) by (apply Hthru; [reflexivity|intros; discriminate]).
+      pose proof (wf_dw nt j s co false Hwf Hj E) as Hco.
+      pose proof (fixed_frozen j Hj Hfm) as Hf.
+      destruct (IHi s Hsj) as [I1 _]. rewrite <- El in I1. specialize (I1 Hf).
+      split.
+      * apply Inv_frozen; [exact Hf|]. rewrite Ha, Hw, I1, Hco. reflexivity.
+      * rewrite I1. apply lbeq_refl.
+  - (* NBn *)
+    assert (Hsj : s < j) by (apply Hs; auto).
+    assert (El : lab j = lab s) by (apply Hthru; [reflexivity|intros; discriminate]).
+    split.
+    + apply (Inv_transfer j s El Ha Hw). apply IHi. exact Hsj.
+    + destruct sr; [reflexivity|].
+      assert (Hfm : is_fixed_module (node_at nt j) = true) by (rewrite E; reflexivity).
+      pose proof (fixed_frozen j Hj Hfm) as Hf.
+      destruct (IHi s Hsj) as [I1 _]. rewrite <- El in I1. rewrite (I1 Hf). apply lbeq_refl.
+  - (* NProp *)
+    assert (Hsj : s < j) by (apply Hs; auto).
+    assert (El : lab j = lab s) by (apply Hthru; [reflexivity|intros; discriminate]).
+    split; [|reflexivity]. apply (Inv_transfer j s El Ha Hw). apply IHi. exact Hsj.
+  - (* NFlat *)
+    assert (Hsj : s < j) by (apply Hs; auto).
+    assert (El : lab j = lab s) by (apply Hthru; [reflexivity|intros; discriminate]).
+    split; [|reflexivity].
+    destruct (IHi s Hsj) as [I1 I2]. rewrite <- El in I1, I2.
+    destruct (F (lab j)) eqn:Hf.
+    + apply Inv_frozen; [exact Hf|]. rewrite Ha, Hw, (I1 eq_refl). apply expand_repeat.
+    + destruct (I2 eq_refl) as (e & Hae & Hwe).
+      apply (Inv_free j (e * m)); [exact Hf| |].
+      * rewrite Ha, Hae. apply expand_expand.
+      * rewrite Hw, Hwe. lia.
+  - (* NJoin *)
+    assert (Haj : a < j) by (apply Hs; auto).
+    assert (Hbj : b < j) by (apply Hs; auto).
+    destruct (join_same_component nt j a b t Hwf Hj E) as [Eab Eja].
+    pose proof (wf_join nt Hwf j a b t Hj E) as Wab.
+    destruct (IHi a Haj) as [A1 A2]. destruct (IHi b Hbj) as [B1 B2].
+    rewrite <- Eab in B1, B2. rewrite <- Eja in A1, A2, B1, B2.
+    assert (Hab : al a = al b).
+    { destruct (F (lab j)) eqn:Hf.
+      - rewrite (A1 eq_refl), (B1 eq_refl), Wab. reflexivity.
+      - destruct (A2 eq_refl) as (ea & Haa & Hwa). destruct (B2 eq_refl) as (eb & Hab & Hwb).
+        rewrite Haa, Hab. destruct (Vof (lab j)) as [|b0 V0].
+        + reflexivity.
+        + assert (ea = eb).
+          { apply (Nat.mul_cancel_r ea eb (length (b0 :: V0))); [simpl; lia|]. congruence. }
+          subst. reflexivity. }
+    split; [|rewrite Hab; apply lbeq_refl].
+    apply (Inv_transfer j a Eja); [|exact Hw|exact (IHi a Haj)].
+    rewrite Ha, <- Hab. apply map2_orb_diag.
+  - (* NCat *)
+    split; [|reflexivity].
+    assert (Hcat : is_cat (node_at nt j) = true) by (rewrite E; reflexivity).
+    destruct (F (lab j)) eqn:Hf.
+    + apply Inv_frozen; [exact Hf|]. rewrite Ha, Hw. apply flat_map_all_true.
+      intros s Hin. destruct (IHi s (Hs s Hin)) as [I1 _]. apply I1.
+      exact (closedP j l s Hj E Hf Hin).
+    + assert (Hsf : filter searchf (members nt (lab j)) = []).
+      { destruct (filter searchf (members nt (lab j))) as [|c r] eqn:Efl; [reflexivity|exfalso].
+        assert (Hin : In c (filter searchf (members nt (lab j)))) by (rewrite Efl; simpl; auto).
+        apply filter_In in Hin as [Hm Hsc]. apply In_members in Hm as [Hcl Ecl].
+        pose proof (cat_search_frozen j c Hj Hcl Ecl Hcat Hsc). congruence. }
+      assert (Hcf : filter catf (members nt (lab j)) = [j]).
+      { apply singleton_of_short.
+        - apply filter_In. split; [|exact Hcat]. apply In_members. auto.
+        - destruct (le_lt_dec (length (filter catf (members nt (lab j)))) 1) as [Hle|Hgt]; [exact Hle|].
+          pose proof (two_cat_frozen j Hj Hcat Hgt). congruence. }
+      assert (EV : Vof (lab j) = al j) by (unfold Vof; rewrite Hsf, Hcf; reflexivity).
+      apply (Inv_free j 1); [exact Hf| |]; rewrite EV.
+      * rewrite expand_1. reflexivity.
+      * rewrite Hw. rewrite Ha at 1.
+        rewrite (length_flat_map _ (fun s => W s) l); [lia|].
+        intros s Hin. apply Inv_len. apply IHi. exact (Hs s Hin).
+Qed.
+
+Theorem P3_closed_sec : sound_b nt ms = true.
+Proof.
+  unfold sound_b. cbv zeta. apply forallb_forall. intros i Hi. apply in_seq in Hi.
+  destruct (main_inv i ltac:(lia)) as [_ H]. exact H.
+Qed.
+
+End Main.
+
+Theorem P3_closed : forall nt ms, wf nt = true -> consistent_b true nt ms = true ->
+  closed_b nt = true -> sound_b nt ms = true.
+Proof. intros nt ms H1 H2 H3. exact (P3_closed_sec nt ms H1 H2 H3). Qed.
+
+Theorem P3 : forall nt ms, wf nt = true -> consistent_b true nt ms = true -> sound_b nt ms = true.
+Proof. intros nt ms H1 H2. apply P3_closed; auto using closed_b_holds. Qed.
+
